@@ -214,9 +214,15 @@ def model_check(res, tier):
     """TLC on the specification alone: existence/uniqueness of the certified minimiser, the
     denominator bound the rational reconstruction relies on, and the transcribed Jolt solver
     (explorer) against the declarative definition, over the whole lattice."""
-    cfgs = [("SimplexMC3.cfg", 16)] if tier == "quick" else [("SimplexMC4.cfg", 16)]
-    for cfg, w in cfgs:
-        r = tlc.run("c18", "SimplexMC", cfg=cfg, workers=w, heap="4g", timeout=7200)
+    cfgs = [("SimplexMC", "SimplexMC3.cfg", 16), ("Johnson", "Johnson3.cfg", 8)] if tier == "quick" else [("SimplexMC", "SimplexMC4.cfg", 16), ("Johnson", "Johnson4.cfg", 16)]
+    for v in ("no_vertex_pass", "seg12_swapped"):
+        # vacuity guard of the Johnson explorer: each slip variant must violate BackupCorrect
+        r = tlc.run("c18", "Johnson", cfg=f"Johnson_{v}.cfg", workers=2, heap="1g", timeout=1800)
+        res.add_tlc(r)
+        if "BackupCorrect" not in r.invariant_violated:
+            res.machinery(f"Johnson.tla variant {v} did not violate BackupCorrect (vacuous model)")
+    for mod, cfg, w in cfgs:
+        r = tlc.run("c18", mod, cfg=cfg, workers=w, heap="4g", timeout=7200)
         res.add_tlc(r)
         res.coverage.setdefault("mc_runs", []).append({"cfg": cfg, "states": r.distinct, "wall": round(r.wall, 1)})
         if r.invariant_violated or r.property_violated:
@@ -251,6 +257,14 @@ def run(tier, seed):
     rejects = trace.judge(recs, "c18", "SimplexTrace", "SimplexTrace.cfg", "c18", res)
     for rid, clauses in sorted(rejects.items()):
         r = byid[rid]
+        drift = {c for c in clauses if c.startswith("DRIFT_")}
+        clauses = clauses - drift
+        if drift:
+            res.coverage["drift"] += 1
+            if len(res.notes) < 5:
+                res.notes.append(f"drift: johnson on Y={r.get('Y')} reports S={r.get('S')} x={r.get('xn')}/{r.get('xd')}, the model Johnson.tla another candidate")
+        if not clauses:
+            continue
         if r["solver"] == "exactmn":
             res.machinery(f"the harness' exact oracle was rejected by the judge on {r['Y']}: {clauses}")
             continue
